@@ -95,11 +95,18 @@ func genHosts(r *Rng, c *SrvConf) []*host {
 			h.cid = []byte{9, 9, 9, byte(i), 7}
 		case 5: // long identifiers that differ only after the 16th byte (RFC 4361 DUID-UUID style)
 			h.cid = append([]byte{0xff, 1, 2, 3, 4, 0, 4, 0xaa, 0xbb, 0xcc, 0xdd, 0xee, 0xff, 0x10, 0x11, 0x12, 0x13, 0x14, 0x15, 0x16, 0x17, 0x18}, byte(i))
+		case 6: // RFC 4361 shape (ff, IAID, DUID) at the boundary lengths: type byte + 3/4/5/6 bytes
+			h.cid = append([]byte{0xff}, r.Bytes(Pick(r, 3, 3, 4, 5, 6))...)
 		}
 		hs = append(hs, h)
 	}
 	if len(hs) >= 2 && r.Chance(15) { // two hardware addresses sending one and the same client identifier
 		hs[1].cid = hs[0].cid
+	}
+	if len(hs) >= 2 && r.Chance(15) { // RFC 4361 identifiers with one and the same DUID but different IAIDs: two clients by their identifiers
+		duid := []byte{0, 3, 0, 1, 2, 0, 0, 0, 0xdd, byte(r.Intn(4))}
+		hs[0].cid = append([]byte{0xff, 0, 0, 0, 1}, duid...)
+		hs[1].cid = append([]byte{0xff, 0, 0, 0, 2}, duid...)
 	}
 	if len(hs) >= 2 && r.Chance(20) { // a pair of long identifiers that differ only in their last byte
 		long := []byte{0xff, 1, 2, 3, 4, 0, 4, 0xaa, 0xbb, 0xcc, 0xdd, 0xee, 0xff, 0x10, 0x11, 0x12, 0x13, 0x14, 0x15, 0x16, 0x17, 0x18}
@@ -222,7 +229,11 @@ func genMsgKind(r *Rng, c *SrvConf, h *host, xid uint32, forced string) (MsgSpec
 		}
 		// identities somebody might derive from another host's hardware address: the server's internal
 		// namespace, RFC 2132 "type 1" (01 + address), the bare address, other hardware types
-		switch r.Intn(6) {
+		switch r.Intn(8) {
+		case 6: // the internal namespace wrapped into an RFC 4361 identifier (type ff, some IAID)
+			m.Cid = append(append([]byte{0xff}, r.Bytes(4)...), append([]byte{0, 3, 0, 0}, victim...)...)
+		case 7: // ... or behind other short headers
+			m.Cid = append(r.Bytes(Pick(r, 1, 2, 4, 5)), append([]byte{0, 3, 0, 0}, victim...)...)
 		case 0, 1:
 			m.Cid = append([]byte{0, 3, 0, 0}, victim...)
 		case 2, 3:
